@@ -2223,6 +2223,73 @@ fn tiny_order_checks(sched: &Sched, seed: u64) {
     drop(key);
 }
 
+/// C16 for large values: containers whose `into_inner` / `into_child` / `get_mut` results are
+/// several KiB (8 locks of 1 KiB each, and a 3 x 3 nest) - every value must come out once and be
+/// dropped exactly once. No lock is operated (these paths consume the collection).
+fn big_value_roundtrips(sched: &Sched, seed: u64) {
+    use happylock::collection::{BoxedLockCollection, OwnedLockCollection, RetryingLockCollection};
+    use happylock::lockable::LockableIntoInner;
+    use std::sync::atomic::{AtomicU32, Ordering};
+    use std::sync::Arc;
+    struct Big {
+        id: u32,
+        _pad: [u8; 1020],
+        drops: Arc<Vec<AtomicU32>>,
+    }
+    impl Drop for Big {
+        fn drop(&mut self) {
+            self.drops[self.id as usize].fetch_add(1, Ordering::Relaxed);
+        }
+    }
+    type BM = happylock::mutex::Mutex<Big, crate::raw::SimRawMutex>;
+    type BR = happylock::rwlock::RwLock<Big, crate::raw::SimRawRwLock>;
+    let mut rng = crate::rng::Rng::new(seed ^ 0xB16B);
+    let drops: Arc<Vec<AtomicU32>> = Arc::new((0..9).map(|_| AtomicU32::new(0)).collect());
+    let mk = |i: usize| Big { id: i as u32, _pad: [0; 1020], drops: drops.clone() };
+    let which = rng.below(6);
+    let (what, ids): (&str, Vec<u32>) = match which {
+        0 => {
+            let c = BoxedLockCollection::new(std::array::from_fn::<BM, 8, _>(|i| BM::new(mk(i))));
+            ("BoxedLockCollection<[Mutex<1 KiB>; 8]>::into_inner", c.into_inner().iter().map(|b| b.id).collect())
+        }
+        1 => {
+            let c = RetryingLockCollection::new(std::array::from_fn::<BR, 8, _>(|i| BR::new(mk(i))));
+            ("RetryingLockCollection<[RwLock<1 KiB>; 8]>::into_inner", c.into_inner().iter().map(|b| b.id).collect())
+        }
+        2 => {
+            let c = OwnedLockCollection::new(std::array::from_fn::<BM, 8, _>(|i| BM::new(mk(i))));
+            ("OwnedLockCollection<[Mutex<1 KiB>; 8]>::into_inner", c.into_inner().iter().map(|b| b.id).collect())
+        }
+        3 => {
+            let a: [BM; 8] = std::array::from_fn(|i| BM::new(mk(i)));
+            ("<[Mutex<1 KiB>; 8] as LockableIntoInner>::into_inner", LockableIntoInner::into_inner(a).iter().map(|b| b.id).collect())
+        }
+        4 => {
+            let c = OwnedLockCollection::new(std::array::from_fn::<[BM; 3], 3, _>(|i| std::array::from_fn(|j| BM::new(mk(i * 3 + j)))));
+            ("OwnedLockCollection<[[Mutex<1 KiB>; 3]; 3]>::into_inner", c.into_inner().iter().flatten().map(|b| b.id).collect())
+        }
+        _ => {
+            let mut c = BoxedLockCollection::new((std::array::from_fn::<BM, 6, _>(|i| BM::new(mk(i))), BR::new(mk(6))));
+            let c2 = c.into_child();
+            c = BoxedLockCollection::new(c2);
+            let (a, b) = c.into_inner();
+            ("BoxedLockCollection<([Mutex<1 KiB>; 6], RwLock<1 KiB>)>::into_child / into_inner", a.iter().map(|b| b.id).chain([b.id]).collect())
+        }
+    };
+    let n = ids.len();
+    let mut g = sched.lock();
+    g.stats.big_roundtrips += 1;
+    if ids != (0..n as u32).collect::<Vec<u32>>() {
+        let d = format!("{} returned the values {:?}, expected 0..{}", what, ids, n);
+        g.event(Clause::RoundTrip, 0, d);
+    }
+    let counts: Vec<u32> = drops.iter().take(n).map(|c| c.load(Ordering::Relaxed)).collect();
+    if counts.iter().any(|c| *c != 1) {
+        let d = format!("{}: after the result was dropped the values' drop counts are {:?}, expected 1 each", what, counts);
+        g.event(Clause::DropCount, 0, d);
+    }
+}
+
 /// Execute one scenario from start to finish in this process.
 pub fn run_scenario(scn: &Scenario) -> RunResult {
     let nthreads = scn.program.threads.len();
@@ -2236,6 +2303,9 @@ pub fn run_scenario(scn: &Scenario) -> RunResult {
     }
     if scn.profile == "C08" {
         tiny_order_checks(&sched, scn.cfg.sched_seed);
+    }
+    if scn.profile == "C16" && scn.cfg.sched_seed % 8 == 0 {
+        big_value_roundtrips(&sched, scn.cfg.sched_seed);
     }
     let world = World::new(&scn.world, &sched);
     if !world.address_ranks_ok() {
